@@ -94,8 +94,15 @@ def isolated_items(rng):
                 calls.append({"op": "call", "inst": 1, "export": st_, "args": [val("i32", addr), val(t, v0)]})
                 if "cmpxchg" in op:
                     bits = int(w) if w else (32 if t == "i32" else 64)
-                    calls.append({"op": "call", "inst": 1, "export": nm, "args": [val("i32", addr), val(t, v0 & ((1 << bits) - 1)), val(t, v)]})
+                    full = (1 << (32 if t == "i32" else 64)) - 1
+                    junk = (full ^ ((1 << bits) - 1)) & 0xA5A5A5A5FFFFFF00FFFFFF00 & full     # bits above the access width only
+                    # the expected operand is wrapped to the access width before the comparison: junk above it does not matter
+                    calls.append({"op": "call", "inst": 1, "export": nm, "args": [val("i32", addr), val(t, (v0 & ((1 << bits) - 1)) | (junk if (addr // 16) % 2 else 0)), val(t, v)]})
+                    calls.append({"op": "call", "inst": 1, "export": ld_, "args": [val("i32", addr)]})
                     calls.append({"op": "call", "inst": 1, "export": nm, "args": [val("i32", addr), val(t, 0x1111), val(t, v0)]})
+                    calls.append({"op": "call", "inst": 1, "export": ld_, "args": [val("i32", addr)]})
+                    # ... and a mismatch in the low bits is a mismatch whatever the high bits say
+                    calls.append({"op": "call", "inst": 1, "export": nm, "args": [val("i32", addr), val(t, ((v ^ 1) & ((1 << bits) - 1)) | junk), val(t, v0)]})
                 else:
                     calls.append({"op": "call", "inst": 1, "export": nm, "args": [val("i32", addr), val(t, v)]})
                 calls.append({"op": "call", "inst": 1, "export": ld_, "args": [val("i32", addr)]})
